@@ -90,7 +90,11 @@ class SubCheck(object):
 
     def __init__(self, name, check, strategy=None, enumerate=None, nontrivial=None, classes=None,
                  quick=1000, thorough=20000, shards_quick=1, shards_thorough=8, rule="", exhaustive=False,
-                 matchers=None, setup=None, use_target=False, seq_groups=None, seq_len=3):
+                 matchers=None, setup=None, use_target=False, seq_groups=None, seq_len=3, fresh=None, fresh_first=None):
+        # fresh = (processes in the quick tier, in the thorough tier, cases per process): extra runs in pristine processes
+        # fresh_first(case, k) -> case: optional bias for the very first call of such a process (e.g. unusual argument types)
+        self.fresh = fresh
+        self.fresh_first = fresh_first
         self.use_target = use_target
         self.name = name
         self.check = check
